@@ -33,7 +33,7 @@ ASSUMPTIONS = [
 ]
 FLOORS = {'quick': {'nontrivial': 40, 'ddl_statements': 100},
           'thorough': {'nontrivial': 400, 'ddl_statements': 1000}}
-SIZES = {'quick': (260, 140), 'thorough': (4200, 1800)}
+SIZES = {'quick': (1400, 600), 'thorough': (7000, 3000)}
 
 
 def eff_seed(seed):
